@@ -730,17 +730,10 @@ fn build_vp09_fmp4(config: &FragmentConfig) -> Vec<u8> {
 }
 
 fn build_vpcc_fmp4(config: &FragmentConfig) -> Vec<u8> {
-    let mut payload = Vec::new();
-    if let Some(vp9_config) = &config.vp9_config {
-        payload.push(1); // version
-        payload.push(vp9_config.profile); // profile
-        payload.push(vp9_config.level); // level
-        payload.push(vp9_config.bit_depth); // bit_depth
-        payload.push(vp9_config.color_space); // color_space
-        payload.push(vp9_config.transfer_function); // transfer_function
-        payload.push(vp9_config.matrix_coefficients); // matrix_coefficients
-        payload.push(vp9_config.full_range_flag); // full_range_flag
-    }
+    let payload = match &config.vp9_config {
+        Some(vp9_config) => crate::muxer::mp4::vpcc_payload(vp9_config),
+        None => Vec::new(),
+    };
     build_box(b"vpcC", &payload)
 }
 
